@@ -10,9 +10,14 @@
 (*   state   : c, st, reason, reg   a ConnectionStateChangedEvent          *)
 (*   deliver : c, reg               a MessageReceivedEvent                 *)
 (*   wire    : c, n, reg            n bytes of c were handed to the link   *)
-(*   q       : reg, att[1..n], sock[1..n]   a quiescent point: registry,   *)
-(*             per connection the attempt (none|running|gone|unknown) and  *)
-(*             the transport (none|open|closing|closed|unknown)            *)
+(*   sent    : c, res (ok|raised|cancelled), wrote, reg   a send_message   *)
+(*             started by the driver returned; wrote = it had handed bytes *)
+(*             to the transport                                            *)
+(*   q       : reg, att[1..n], sock[1..n], held[1..n]   a quiescent point: *)
+(*             registry, per connection the attempt (none|running|gone|    *)
+(*             unknown), the transport (none|open|closing|closed|unknown)  *)
+(*             and whether the driver's slow listener is holding one of    *)
+(*             its reports (a task is suspended inside the report)         *)
 (*   stim    : what ...             what the driver did (not constrained)  *)
 (* reg = ids in Network.peer_connections right after the event.            *)
 (*                                                                         *)
@@ -83,11 +88,17 @@ GWire ==
   /\ conn' = WithReg([conn EXCEPT ![Rec.c] = [@ EXCEPT !.snd = Sat(@), !.sndAC = @ \/ AfterClosed(conn[Rec.c])]])
   /\ q' = FALSE /\ Consume
 
+GSent ==
+  /\ mode = "generic" /\ PropsOK /\ IsEv("sent") /\ Rec.c \in DOMAIN conn
+  /\ conn' = WithReg([conn EXCEPT ![Rec.c] = [@ EXCEPT !.sokAC = @ \/ (Rec.res = "ok" /\ Rec.wrote /\ AfterClosed(conn[Rec.c]))]])
+  /\ q' = FALSE /\ Consume
+
 AttOfObs(a) == IF a = "gone" THEN "finished" ELSE a
 
 GQuiescent ==
   /\ mode = "generic" /\ PropsOK /\ IsEv("q")
-  /\ conn' = WithReg([d \in DOMAIN conn |-> [conn[d] EXCEPT !.att = AttOfObs(Rec.att[d]), !.wr = Rec.sock[d]]])
+  /\ conn' = WithReg([d \in DOMAIN conn |-> [conn[d] EXCEPT !.att = AttOfObs(Rec.att[d]), !.wr = Rec.sock[d],
+                                                                !.apc = IF Rec.held[d] THEN "repHELD" ELSE "-"]])
   /\ q' = TRUE /\ Consume
 
 ----------------------------------------------------------------------------
@@ -117,6 +128,14 @@ SWire ==
   /\ RegAgrees
   /\ q' = FALSE /\ Consume
 
+\* what a send returned is not an action of its own in the design spec (SendResume / SendWakeError / WriteTimeout are
+\* silent or report CLOSING); the history flag is maintained as in the generic reading
+SSent ==
+  /\ mode = "strict" /\ IsEv("sent") /\ Rec.c \in DOMAIN conn
+  /\ conn' = [conn EXCEPT ![Rec.c] = [@ EXCEPT !.sokAC = @ \/ (Rec.res = "ok" /\ Rec.wrote /\ AfterClosed(conn[Rec.c]))]]
+  /\ RegAgrees
+  /\ q' = FALSE /\ Consume
+
 ObsOfAtt(a) == IF a \in {"cancelled", "finished"} THEN "gone" ELSE a
 
 SQuiescent ==
@@ -129,6 +148,7 @@ SQuiescent ==
        /\ \/ Rec.att[d] = "unknown" \/ LastRep(conn[d]) \notin {"none", "CONNECTING"}
           \/ Rec.att[d] = ObsOfAtt(conn[d].att)
        /\ Rec.sock[d] = "unknown" \/ Rec.sock[d] = conn[d].wr
+       /\ Rec.held[d] = InReport(conn[d])
   /\ UNCHANGED vars
   /\ q' = TRUE /\ Consume
 
@@ -157,7 +177,7 @@ Done ==
 
 Finished == l = Len(T) + 2 /\ UNCHANGED tvars
 
-TNext == GState \/ GDeliver \/ GWire \/ GQuiescent \/ SState \/ SDeliver \/ SWire \/ SQuiescent \/ Silent
+TNext == GState \/ GDeliver \/ GWire \/ GSent \/ GQuiescent \/ SState \/ SDeliver \/ SWire \/ SSent \/ SQuiescent \/ Silent
          \/ TStim \/ Done \/ Finished
 
 TSpec == TInit /\ [][TNext]_tvars
